@@ -236,12 +236,21 @@ PROPERTIES["C08"] = {
                               dict(npipes=1, cap=2, ready_cap=1, items_per_producer=2, consumer_calls=3)],
              },
              timeout_ms={"quick": 900000, "thorough": 3600000}, tiers=("quick", "thorough")),
+        dict(name="c08_filtered_batch_after_pending_item", module="verifkit.cfabmc.rpq_check",
+             scenarios={
+                 "quick": [dict(npipes=1, cap=2, ready_cap=1, items_per_producer=2, consumer_calls=3, batch=True, filtered=True, pre_items=1)],
+                 "thorough": [dict(npipes=1, cap=2, ready_cap=1, items_per_producer=2, consumer_calls=3, batch=True, filtered=True, pre_items=1),
+                              dict(npipes=1, cap=3, ready_cap=1, items_per_producer=2, consumer_calls=3, batch=True, filtered=True, pre_items=1),
+                              dict(npipes=1, cap=2, ready_cap=1, items_per_producer=2, consumer_calls=2, batch=True, filtered=True)],
+             },
+             queries_by_tier={"quick": ["cover.consumer-completes", "lost-wakeup", "loop-bound-exceeded"]},
+             timeout_ms={"quick": 1200000, "thorough": 3600000}, tiers=("quick", "thorough")),
     ],
-    "assumptions": CFA_TRUST,
+    "assumptions": CFA_TRUST + ["filtered batch path: every item matches the subscription (SubscriptionTrie::matches = true), FrameBatch::first/len are stubbed (items are opaque ids)"],
     "manifest": {
         "engine": "cfabmc",
         "technique": "bounded model checking of interleavings (z3, QF_BV): control-flow automata of send/try_send/pop/try_pop extracted from MIR, scheduler choice per step as solver variable",
-        "text": "For one producer sending 2 items using the async or the non-blocking enqueue path (solver's choice per call) or one batched try_send_batch and a consumer using pop/try_pop (solver's choice, last call blocking), over ALL interleavings of the individual channel and counter operations within K steps: no state with all producers done, the consumer parked on an empty ready list and a message still queued (lost wake-up); no counter underflow; reserved_count >= queued_count; debug_assert!(prev > 0) unreachable; spin/retry loops stay within the extraction bound.",
+        "text": "For one producer sending 2 items using the async or the non-blocking enqueue path (solver's choice per call) or one batched try_send_batch (generic ReadyPipeSender path; and the subscription-filtered PipeMessageSender path, also with an item already pending when the batch arrives and 3 dequeues) and a consumer using pop/try_pop (solver's choice, last call blocking), over ALL interleavings of the individual channel and counter operations within K steps: no state with all producers done, the consumer parked on an empty ready list and a message still queued (lost wake-up); no counter underflow; reserved_count >= queued_count; debug_assert!(prev > 0) unreachable; spin/retry loops stay within the extraction bound.",
         "design_ref": "DESIGN.md §5 C08",
         "note": "Bounds: ONE pipe (one producer, one consumer), 2 items, pipe capacity 2 (quick) and also capacity 1 / 3 dequeue calls (thorough); scenarios with two pipes did not finish within an hour of solver time and are NOT covered. cancellation of a blocked dequeue, deregister_pipe/close, wait_for_connection and WaitGroup are NOT covered. Counterexample schedules are printed; they are not replayed natively (no scheduling hook in the repo), so a reported schedule is a solver witness over the extracted CFAs.",
     },
@@ -455,10 +464,49 @@ PROPERTIES["C18"] = {
     "outside": "secrecy, tamper detection, nonce/key freshness (cryptography); record sizes other than the listed boundary values",
 }
 
+PROPERTIES["C09"] = {
+    "mirsym": [
+        M("c09_rpq_send_cancelled", "d_c09", "rpq_send_cancel",
+          "ReadyPipeSender::send (coroutine MIR) on a full pipe of capacity 1 or 2: polled until Pending at the pipe-full await, then the coroutine's drop shim is executed - immediately, or after the consumer took one item; control run: the future resumes instead",
+          budget={"quick": 200, "thorough": 300}, required_covers=["c09.rpq-send.cancelled-while-full", "c09.rpq-send.cancelled-after-room", "c09.rpq-send.control-completed"]),
+        M("c09_rpq_pop_cancelled", "d_c09", "rpq_pop_cancel",
+          "ReadyPipeQueue::pop (coroutine MIR) on an empty queue: polled until Pending on the ready list, then its drop shim is executed before / after a producer enqueued an item; control run resumes",
+          budget={"quick": 200, "thorough": 300}, required_covers=["c09.rpq-pop.cancelled-before-enqueue", "c09.rpq-pop.cancelled-after-enqueue", "c09.rpq-pop.control-completed"]),
+        M("c09_ingress_recv_cancelled", "d_c09", "ingress_recv_cancel",
+          "AnonymousIngressEngine::{recv, recv_multipart} without timeout (PULL/SUB receive path): parked inside the nested ReadyPipeQueue::pop coroutine, outer drop shim executed (it runs the inner coroutine's shim) before / after a 2-frame message was enqueued; then everything is read back frame by frame",
+          budget={"quick": 200, "thorough": 300}, required_covers=["c09.ingress.cancelled-before-enqueue", "c09.ingress.cancelled-after-enqueue", "c09.ingress.control-completed"]),
+        M("c09_req_send_cancelled", "d_c09", "req_send_cancel",
+          "ReqSocket::send (async_trait coroutine) on a hand-assembled socket: dropped while waiting for a first peer, inside the pending peer send, and with two sends in flight (the queued one / the one in front dropped); afterwards state, async mutexes and the next two sends are checked",
+          budget={"quick": 200, "thorough": 300},
+          required_covers=["c09.req-send.cancelled-while-waiting-for-peer", "c09.req-send.cancelled-inside-peer-send", "c09.req-send.cancelled-queued-send",
+                           "c09.req-send.cancelled-send-in-front-of-a-queued-one", "c09.req-send.async-mutex-held-at-the-cancel-point"]),
+    ],
+    "cfabmc": [
+        dict(name="c09_ready_list_awaits_never_suspend", module="verifkit.cfabmc.rpq_check",
+             scenarios={"quick": [dict(npipes=1, cap=2, ready_cap=1, items_per_producer=2, consumer_calls=2)],
+                        "thorough": [dict(npipes=1, cap=2, ready_cap=1, items_per_producer=2, consumer_calls=2),
+                                     dict(npipes=1, cap=1, ready_cap=1, items_per_producer=2, consumer_calls=2),
+                                     dict(npipes=1, cap=2, ready_cap=1, items_per_producer=2, consumer_calls=3)]},
+             queries=["cover.consumer-completes", "ready-list-send-suspends"],
+             timeout_ms={"quick": 600000, "thorough": 1800000}),
+    ],
+    "assumptions": MIRSYM_TRUST + CFA_TRUST + [
+        "cancellation = the compiler-generated drop shim of the suspended coroutine (rustc -Zdump-mir=coroutine_drop, appended to the MIR dump and executed by mirsym); drops of nested crate futures run their own shims; drops of values of external types are no-ops except the modelled ones (async mutex guard releases, a pending fibre send future keeps its item unsent)",
+        "sequential semantics between polls: an awaited fibre channel operation / Notified / async-mutex lock is Ready exactly when it can take effect at the moment it is polled",
+        "no native replay for these drivers (a violation would be reported as a solver/interpreter witness)"],
+    "manifest": {
+        "engine": "mirsym+cfabmc",
+        "technique": "symbolic execution (mirsym, z3) of the real coroutine bodies up to a Pending poll followed by the real coroutine drop shims from rustc's MIR; interleaving BMC (z3) showing which awaits can never suspend",
+        "text": "Kernels of the property. Dropping the future of ReadyPipeSender::send at its pipe-full await, of ReadyPipeQueue::pop and of AnonymousIngressEngine::recv/recv_multipart at their only suspending await, or of ReqSocket::send at each of its awaits (waiting for a peer, behind another send, inside the peer send): leaves counters consistent and mutexes released, loses no queued item, delivers nothing twice and nothing partially, the cancelled item is not delivered at all, and the next valid call succeeds (REQ: exactly one further send, then alternation is enforced again). For one pipe and all interleavings the ready-list awaits inside send() (after the item is committed) and pop() (after an item was taken) never return Pending, so they are not cancellation points.",
+        "design_ref": "DESIGN.md §5 (C09)",
+        "note": "NOT claimed: the socket-level futures of the eight socket types (they reach into SocketCore / actors), timeouts that cancel internally (tokio::time::timeout wraps the future in an external type whose drop is not executed), recv on REQ/REP/ROUTER/DEALER (addressed ingress, tokio::select!), ROUTER's fragmented send permit, route_message's pending peer send, more than one pipe.",
+    },
+    "outside": "socket-level futures, internal timeouts, addressed ingress, ROUTER fragmented send, >1 pipe",
+}
+
 HOOK_COMMITS = ["e6aec85", "b7f56e8", "904f401", "7ede9e5", "6da26bc", "f8dc301"]
 
 NOT_APPLICABLE = {
-    "C09": "cancellation needs the drop glue of the suspended coroutine; rustc's -Zunpretty=mir dump does not contain coroutine drop shims, Kani cannot run async socket code, and the socket-level futures of the eight socket types reach into SocketCore/tokio; what the interleaving check can say (ready_tx.send never blocks, so ReadyPipeSender::send can only be cancelled at the pipe-full await) is reported under C08, not claimed here",
     "C14": "SNDTIMEO/RCVTIMEO are wall-clock semantics of tokio timers around channel operations and the buffering bound is an end-to-end quantity across three tasks; there is no function whose symbolic execution states it, and a symbolic timer would verify the stub, not rzmq (DESIGN.md §5 C14)",
     "C15": "LINGER is a multi-actor shutdown protocol over tokio timers, mailboxes and kernel socket buffers; out of reach of solver-based checking of functions (DESIGN.md §5 C15)",
     "C20": "backend equivalence and kernel-object lifecycles (io_uring rings, fds) cannot be encoded; handlers need a live IoUring (DESIGN.md §5 C20)",
